@@ -1,6 +1,6 @@
 (* C04 — Connection loss fails every call and hangs none. Theorems only; proofs in Proofs/ClientConnP.v *)
 From Coq Require Import List Bool Arith.
-From Sftp Require Import Conn.ClientConn Conn.ConnTrace Proofs.ClientConnP Proofs.ClientConnLiveP Proofs.ConnTraceP.
+From Sftp Require Import Conn.ClientConn Conn.ConnTrace Proofs.ClientConnP Proofs.ClientConnLiveP Proofs.ConnTraceP Proofs.ConnTraceLiveP.
 Import ListNotations.
 
 (* for every interleaving of callers, deliveries, send failures and the receiver's failure: at most one result is ever
@@ -63,6 +63,17 @@ Print Assumptions C04_after_loss_every_caller_can_step.
 Theorem C04_after_loss_no_delivery : forall s k, closed s = true -> cstep s (Deliver k) = None.
 Proof. exact after_loss_no_delivery. Qed.
 Print Assumptions C04_after_loss_no_delivery.
+
+(* the same two facts for the recorded runs of conn.go: in every candidate explanation of a trace the model accepts, a
+   caller that is owed a result has it or still has its entry; if the trace contains the broadcast, it has it *)
+Theorem C04_accepted_trace_owed : forall n tr cs, caccept_trace n tr = inl cs ->
+  Forall (fun c : cand =>
+    (forall k st i, cstate_of k (callers (fst c)) = Some st -> owed st i ->
+       In k (map fst (bufs (fst c))) \/ In (i, Some k) (inflight (fst c))) /\
+    (closed (fst c) = true -> forall k st i, cstate_of k (callers (fst c)) = Some st -> owed st i ->
+       In k (map fst (bufs (fst c))))) cs.
+Proof. exact accepted_conn_trace_owed. Qed.
+Print Assumptions C04_accepted_trace_owed.
 
 (* MODELLED, NOT PROVED ABOUT THE CODE: that recv() does fail when the transport dies (io.Reader contract), Go's scheduler
    runs every goroutine, goroutines end, Wait/Close return - observed per run by families c04 and cct (watchdogs, goroutine
